@@ -210,6 +210,11 @@ impl <T: ArrayElement> ArrayAxis<T> for Array<T> {
         let axes = axes.map(|axes| axes.iter()
             .map(|i| self.normalize_axis(*i))
             .collect::<Vec<usize>>());
+        if let Some(axes) = &axes {
+            axes.len().is_equal(&self.ndim()?)?;
+            for &axis in axes { self.axis_in_bounds(axis)?; }
+            axes.is_unique()?;
+        }
         let mut new_elements = vec![T::zero(); self.elements.len()];
         let new_shape: Vec<usize> = axes.clone().map_or_else(
             || self.shape.clone().into_iter().rev().collect(),
@@ -248,6 +253,8 @@ impl <T: ArrayElement> ArrayAxis<T> for Array<T> {
     fn rollaxis(&self, axis: isize, start: Option<isize>) -> Result<Self, ArrayError> {
         let axis = self.normalize_axis(axis);
         let start = start.map_or(0, |ax| self.normalize_axis(ax));
+        self.axis_in_bounds(axis)?;
+        self.axis_in_bounds(start)?;
 
         let mut new_axes = (0..self.ndim()?).collect::<Vec<usize>>();
         let axis_to_move = new_axes.remove(axis);
@@ -259,6 +266,8 @@ impl <T: ArrayElement> ArrayAxis<T> for Array<T> {
     fn swapaxes(&self, axis_1: isize, axis_2: isize) -> Result<Self, ArrayError> {
         let axis_1 = self.normalize_axis(axis_1);
         let axis_2 = self.normalize_axis(axis_2);
+        self.axis_in_bounds(axis_1)?;
+        self.axis_in_bounds(axis_2)?;
 
         let new_axes = (0..self.ndim()?)
             .collect::<Vec<usize>>()
